@@ -3,13 +3,14 @@
    Spec:  Spec/C11Spec.v (expected constraints, chain reader, JS string reading, oracle, domain, classes).
    Only statements, [exact], examples and [Print Assumptions] live here. *)
 From Coq Require Import String Ascii List Arith Bool.
-Require Import TT.Model.Str TT.Model.C11Validator TT.Spec.C11Spec TT.Proofs.C11Proofs.
+Require Import TT.Model.Str TT.Model.C11Validator TT.Spec.C11Spec TT.Proofs.C11Proofs TT.Proofs.C11Scan.
 Import ListNotations.
 
 (* The full statement (NOT asserted here): for every f64 printing function, every in-domain field whose literal
    texts carry the declared values and that lies outside the seven known classes is parsed without panic and
    its chain reads back as exactly the declared constraints. Checked at run time on every generated case
-   outside the classes (seven remain: C11-5 and C11-7 were repaired); proved below for the rendering half, for fields without validators, and refuted
+   outside the classes (seven remain: C11-5 and C11-7 were repaired); proved below for the rendering half
+   (all inputs), for the scanning half on canonical single validators (C11_exact_scan_partial), for fields without validators, and refuted
    inside each class. *)
 Definition C11_exact_full_statement : Prop :=
   forall (dispf : str -> option str) (f : field),
@@ -33,6 +34,64 @@ Theorem C11_exact_render_partial : forall v k, va_ok v = true ->
   read_chain (build_schema (opts k (TsArr (TsPrim (L "string")))) (Some v))
     = Some (Sch (L "z.array") [Sch (L "z.string") [] []] (length_meths v ++ repeat MOptional k)).
 Proof. exact render_exact. Qed.
+
+(* rendering half, arrays, for EVERY element type: the chain of a Vec field is z.array(<bare element schema>)
+   followed by the length methods and the Option wrappers - no validator ever reaches an element *)
+Theorem C11_array_elements_bare : forall inner v k,
+  build_schema (opts k (TsArr inner)) (Some v) =
+  L "z.array(" ++ bare_schema inner ++ L ")" ++ flat_map show_meth (length_meths v ++ repeat MOptional k).
+Proof. exact array_elements_bare. Qed.
+
+(* ... and read back for number, boolean, Option<number>, Vec<String>, Vec<Option<number>> elements *)
+Theorem C11_exact_render_arrays_partial : forall v k, va_ok v = true ->
+  let ms := length_meths v ++ repeat MOptional k in
+  read_chain (build_schema (opts k (TsArr (TsPrim (L "number")))) (Some v)) = Some (arr_of (Sch (L "z.coerce.number") [] []) ms) /\
+  read_chain (build_schema (opts k (TsArr (TsPrim (L "boolean")))) (Some v)) = Some (arr_of (Sch (L "z.coerce.boolean") [] []) ms) /\
+  read_chain (build_schema (opts k (TsArr (TsOpt (TsPrim (L "number"))))) (Some v)) = Some (arr_of (Sch (L "z.coerce.number") [] [MOptional]) ms) /\
+  read_chain (build_schema (opts k (TsArr (TsArr (TsPrim (L "string"))))) (Some v)) =
+    Some (arr_of (Sch (L "z.array") [Sch (L "z.string") [] []] []) ms) /\
+  read_chain (build_schema (opts k (TsArr (TsArr (TsOpt (TsPrim (L "number")))))) (Some v)) =
+    Some (arr_of (Sch (L "z.array") [Sch (L "z.coerce.number") [] [MOptional]] []) ms).
+Proof. exact render_exact_arrays. Qed.
+
+(* scanning half on the sub-domain of CANONICAL single validators: one #[validate(length(..))] or
+   #[validate(range(..))] whose arguments are any subset of min, max, message in that order; bounds are any
+   number texts (digits . e E + -), the message literal is "body" with a body of arbitrary bytes (multi-byte
+   included) free of double quote, backslash, closing parenthesis and the seven keywords.
+   On the printed token string the scanners return exactly the declared components: no panic, bounds = the
+   numeric parse applied to the declared literal text, message = the declared body, email = url = false,
+   the other constraint absent. dispf (f64 parse + Display) is arbitrary. *)
+Theorem C11_exact_scan_partial : forall dispf r omin omax omsg, okn omin -> okn omax -> okm omsg ->
+  parse_validator_attributes dispf [AValidate [canon_item r (canon_args omin omax omsg)]] =
+  Ok (Some (let c := {| c_min := onum (if r then dispf else parse_u64) omin;
+                        c_max := onum (if r then dispf else parse_u64) omax; c_msg := omsg |} in
+            {| v_length := if r then None else Some c; v_range := if r then Some c else None;
+               v_email := false; v_url := false |})).
+Proof. exact scan_exact_canon. Qed.
+
+(* both halves composed on that sub-domain, for String / numeric / Vec<String> fields under k Options:
+   the emitted chain reads back as exactly min / max (printed bound of the declared literal) with the declared message *)
+Theorem C11_exact_canon_partial : forall dispf k omin omax omsg, okn omin -> okn omax -> okm omsg ->
+  (va_ok (canon_va dispf false omin omax omsg) = true ->
+   exists chain, field_chain dispf (canon_field (opt_ty k TyString) false omin omax omsg)
+                   = Ok (Some (canon_va dispf false omin omax omsg), chain) /\
+     read_chain chain = Some (Sch (L "z.string") [] (cstr_meths (canon_cstr dispf false omin omax omsg) ++ repeat MOptional k))) /\
+  (va_ok (canon_va dispf true omin omax omsg) = true ->
+   exists chain, field_chain dispf (canon_field (opt_ty k TyNum) true omin omax omsg)
+                   = Ok (Some (canon_va dispf true omin omax omsg), chain) /\
+     read_chain chain = Some (Sch (L "z.coerce.number") [] (cstr_meths (canon_cstr dispf true omin omax omsg) ++ repeat MOptional k))) /\
+  (va_ok (canon_va dispf false omin omax omsg) = true ->
+   exists chain, field_chain dispf (canon_field (opt_ty k (TyVec TyString)) false omin omax omsg)
+                   = Ok (Some (canon_va dispf false omin omax omsg), chain) /\
+     read_chain chain = Some (Sch (L "z.array") [Sch (L "z.string") [] []]
+                                  (cstr_meths (canon_cstr dispf false omin omax omsg) ++ repeat MOptional k))).
+Proof. exact exact_canon. Qed.
+
+(* the run-time oracle decides exactly this proposition (C11_holds: reads as a schema of the right base, nothing
+   nested carries a constraint, own methods = expected constraints kind by kind with equal exact decimals and
+   equal message bytes) *)
+Theorem C11_oracle_exact : forall f chain, c11_field_ok f chain = true <-> C11_holds f chain.
+Proof. exact oracle_exact. Qed.
 
 (* fields without #[validate] carry no constraints: they get the plain schema of their type *)
 Theorem C11_none : forall dispf f,
@@ -109,8 +168,22 @@ Example C11_ex_not_misattached :
   nth_error (struct_chains dispf_small [g1; w1; g2]) 2 = nth_error (struct_chains dispf_small [w3; w2; g2]) 2.
 Proof. exact (C11_not_misattached dispf_small [g1; w1; g2] [w3; w2; g2] 2 g2 eq_refl eq_refl). Qed.
 
+(* the canonical sub-domain is inhabited by in-domain fields outside every class, messages with
+   multi-byte characters, quotes of the other kind, opening parentheses, commas and equals signs included *)
+Definition ex_body : str := L "Name: 1 (a, b = c '" ++ e_acute.
+Example C11_ex_canon_premises :
+  okn (Some (L "1")) /\ okn (Some (L "2.5e3")) /\ okm (Some ex_body) /\
+  (let f := canon_field (opt_ty 1 TyString) false (Some (L "1")) (Some (L "50")) (Some ex_body) in
+   in_domain f && lits_consistent f && negb (kf_any dispf_small f) && va_ok (canon_va dispf_small false (Some (L "1")) (Some (L "50")) (Some ex_body))) = true.
+Proof. repeat split; vm_compute; reflexivity. Qed.
+
 Print Assumptions C11_escape_roundtrip.
 Print Assumptions C11_exact_render_partial.
+Print Assumptions C11_array_elements_bare.
+Print Assumptions C11_exact_render_arrays_partial.
+Print Assumptions C11_exact_scan_partial.
+Print Assumptions C11_exact_canon_partial.
+Print Assumptions C11_oracle_exact.
 Print Assumptions C11_none.
 Print Assumptions C11_not_misattached.
 Print Assumptions C11_chain_of_own_field.
